@@ -27,6 +27,8 @@ import (
 	_ "google.golang.org/protobuf/internal/testprotos/required/required_opaque"
 	_ "google.golang.org/protobuf/internal/testprotos/test"
 	_ "google.golang.org/protobuf/internal/testprotos/test3"
+	_ "google.golang.org/protobuf/internal/testprotos/test3/test3_hybrid"
+	_ "google.golang.org/protobuf/internal/testprotos/test3/test3_opaque"
 	_ "google.golang.org/protobuf/internal/testprotos/testeditions"
 	_ "google.golang.org/protobuf/internal/testprotos/testeditions/testeditions_hybrid"
 	_ "google.golang.org/protobuf/internal/testprotos/testeditions/testeditions_opaque"
@@ -66,6 +68,7 @@ import (
 	_ "google.golang.org/protobuf/types/known/structpb"
 	_ "google.golang.org/protobuf/types/known/timestamppb"
 	_ "google.golang.org/protobuf/types/known/wrapperspb"
+	_ "google.golang.org/protobuf/zverifsim/fx" // opaque fixture: fields declared after oneofs (see fx/README.md)
 )
 
 // Extensions of a generated message whose values are messages that contain
